@@ -30,7 +30,7 @@ ANCHORS = ['penman.layout:configure', 'penman.layout:_configure_node', 'penman.l
 PROBES = {'C17': 10}
 MIN_EVAL = {'quick': 5000, 'thorough': 200000}
 REQUIRED_COUNTERS = ['state:none', 'state:decoded', 'const:zero', 'model_churn_rounds']
-MODELS_RANDOM = ['default', 'amr', 'mini', 'default', 'rand1', 'rand2', 'rand3', 'rand4', 'inv']
+MODELS_RANDOM = ['default', 'amr', 'mini', 'default', 'rand1', 'rand2', 'rand3', 'rand4', 'inv', 'both', 'prefix']
 # the no-op model is outside C03: without deinversion a triple written from its
 # target's node does not decode to itself (the property quantifies over default/AMR/custom)
 
